@@ -319,6 +319,7 @@ type bench struct {
 	par      []int         // per service: number of workers
 	wnext    []int         // per service: workers seen so far
 	wmap     map[int64]int // fetch-loop goroutine -> worker index (in order of first appearance within the service)
+	soak     *rand.Rand    // soak test: Do answers by itself after a short random delay with a random outcome
 	trouble  string
 }
 
@@ -395,6 +396,20 @@ func (c *fakeClient) Do(ctx context.Context, q ch.Query) error {
 		c.b.trouble = "two concurrent Do calls on one worker"
 	}
 	c.b.inflight[w] = true
+	if c.b.soak != nil {
+		delay := time.Duration(c.b.soak.Intn(300)) * time.Microsecond
+		ok := c.b.soak.Intn(4) != 0
+		c.b.mu.Unlock()
+		time.Sleep(delay)
+		c.b.mu.Lock()
+		c.b.inflight[w] = false
+		c.b.events = append(c.b.events, Ev{T: "done", S: w, Ok: ok})
+		c.b.mu.Unlock()
+		if ok {
+			return nil
+		}
+		return errInsert
+	}
 	c.b.mu.Unlock()
 	ok := <-c.b.release[w]
 	if ok {
@@ -1055,6 +1070,13 @@ func main() {
 	logger.Logger.SetOutput(io.Discard)
 	out := hx.OpenOut(f.Out)
 	defer out.Close()
+	if *level == 3 {
+		initLevel2()
+		for i := 0; i < f.N; i++ {
+			out.Put(runSoak(i, f.Seed+int64(i), 16, 6))
+		}
+		return
+	}
 	if *level == 2 {
 		initLevel2()
 		if f.Cases != "" {
